@@ -148,8 +148,8 @@ pub fn scenarios(tier: &str) -> Vec<Scenario> {
 pub fn bound(sc: &Scenario, tier: &str) -> u32 {
     let heavy = sc.name.contains("1b") || sc.name.contains("accepting") || sc.name.starts_with("pipeline");
     match (tier, heavy) {
-        ("thorough", false) => 3,
-        ("thorough", true) => 2,
+        ("thorough", false) => 2,
+        ("thorough", true) => 1,
         (_, false) => 2,
         (_, true) => 1,
     }
